@@ -525,7 +525,7 @@ func (w *c02World) step(tag string) c02StepResult {
 	}
 
 	// C02: invariants on the persisted record
-	msg, facts := c02CheckRecord(prev.Status.NetworkInterfaces, cur.Status.NetworkInterfaces, pods, w.everPod, detached, w.s.Node.ERDMA)
+	msg, facts := c02CheckRecord(prev.Status.NetworkInterfaces, cur.Status.NetworkInterfaces, pods, w.everPod, detached, w.s.Node.EFLO, w.s.Node.ERDMA)
 	for f := range facts {
 		w.c.Label("c02:" + f)
 	}
